@@ -1,6 +1,7 @@
 package main
 
 import (
+	"strconv"
 	"regexp"
 	"flag"
 	"fmt"
@@ -199,6 +200,15 @@ func main() {
 	cfg := solveCfg{dir: dir, fastS: 3, fullS: 120, workers: 8}
 	if *tier == "thorough" {
 		cfg.fastS, cfg.fullS, cfg.confirm = 10, 300, true
+	}
+	if v := os.Getenv("VERIF_LIMIT_S"); v != "" {
+		// self-test of load independence: an artificially small per-obligation limit
+		if n, err := strconv.Atoi(v); err == nil && n > 0 {
+			cfg.fullS = n
+			if cfg.fastS > n {
+				cfg.fastS = n
+			}
+		}
 	}
 	solveAll(all, cfg)
 	tSolve := time.Since(t0)
